@@ -14,7 +14,10 @@ model of libc's `gmtime_r` / `timegm` / `strftime`).  Instants are whole seconds
                         instant: the property as written fails there (known finding F8)
 * `c19_accessors`, `c19_parsed_fields`   accessors = the independent calendar's fields
 * `c19_offsets_iso`, `c19_offsets_rfc822`   numeric offsets and UTC designators in any case
-* `c19_epoch_views`     `as_millis`, `as_nanos`, `init_epoch_millis`; `c19_nanos_saturation_witness`
+* `c19_epoch_views`     `as_millis`, `as_nanos`, `init_epoch_millis` (through the generated `aws_timestamp_convert`);
+                        `c19_nanos_saturation_witness`
+* `c19_gen_formatters`, `c19_gen_month_table`, `c19_gen_constants`   the values regenerated from date_time.c
+                        (format strings, formatter dispatch, month compare chain, reader constants) are the expected ones
 -/
 namespace AwsVerif.Props.C19
 open AwsVerif.DateTime AwsVerif.DateTime.Spec AwsVerif.Proofs.C19
@@ -116,6 +119,32 @@ theorem c19_nanos_saturation_witness :
     asNanos { timestamp := 20000000000, millis := 1 } = 999999 ∧
     asMillis { timestamp := 20000000000, millis := 1 } = 20000000000001 :=
   Main.c19_nanos_saturation_witness
+
+/-! ### the generated layer (`AwsVerif.Gen.Date`, rewritten from date_time.c on every run) -/
+
+/-- **Generated formatter dispatch and format strings.**  Each of the six UTC formatter cases formats
+`gmt_time` (never `local_time`) and its format string, interpreted by the strftime model, is
+"%a, %d %b %Y %H:%M:%S GMT", "%Y-%m-%dT%H:%M:%SZ", "%Y%m%dT%H%M%SZ" or the date-only form; AUTO_DETECT has no case. -/
+theorem c19_gen_formatters (tm : Tm) (f : Fmt) (short : Bool) : formatTextGen tm f short = formatText tm f short :=
+  Main.c19_gen_formatters tm f short
+
+/-- **Generated month table.**  The compare chain of `get_month_number_from_str` maps each of the twelve
+names `strftime` emits for `%b` to its own month number. -/
+theorem c19_gen_month_table : ∀ m : Fin 12, monthNumber (monthName (m.val : Int) ++ [32]) = some m.val :=
+  Main.c19_gen_month_table
+
+/-- **Generated reader constants.**  The zone characters copied (5) plus the terminator fit `tz[6]` and an
+offset zone `±hhmm` fits; 4-digit years subtract libc's base 1900, 2-digit years are 20yy, the ISO reader
+subtracts 1900; the longest formatter text (29) is within `AWS_DATE_TIME_STR_MAX_LEN`; the epoch views call
+`aws_timestamp_convert` with SECS→MILLIS, SECS→NANOS, MILLIS→NANOS, and MILLIS→SECS with a remainder. -/
+theorem c19_gen_constants :
+    Gen.Date.tzMaxChars + 1 ≤ Gen.Date.tzBufSize ∧ Gen.Date.offsetZoneLen ≤ Gen.Date.tzMaxChars ∧
+    Gen.Date.rfcYear4Digits = 4 ∧ Gen.Date.rfcYear4Sub = 1900 ∧
+    Gen.Date.rfcYear2Digits = 2 ∧ Gen.Date.rfcYear2Add - Gen.Date.rfcYear2Sub + 1900 = 2000 ∧
+    Gen.Date.isoYearSub = 1900 ∧ 29 ≤ Gen.Date.AWS_DATE_TIME_STR_MAX_LEN ∧
+    Gen.Date.asMillisSecs = (1, 1000, false) ∧ Gen.Date.asNanosSecs = (1, 1000000000, false) ∧
+    Gen.Date.asNanosMillis = (1000, 1000000000, false) ∧ Gen.Date.initMillis = (1000, 1, true) :=
+  Main.c19_gen_constants
 
 /-! The hypotheses are satisfiable by non-trivial instants (a leap day, the last second of 9999). -/
 example : gmtime 951782400 = { year := 2000, mon := 1, mday := 29, hour := 0, min := 0, sec := 0, wday := 2 } := by decide
